@@ -6,6 +6,10 @@ import LC.Props.C06
 #print axioms LC.V2Tok.tokenize_eol_last
 #print axioms LC.V2Tok.tokenize_words
 #print axioms LC.V2Tok.normalize_lines
+#print axioms LC.V2Tok.render_lines_mono
+#print axioms LC.V2Tok.tokenize_mono
+#print axioms LC.V2Tok.tokenize_eol_lastlt
+#print axioms LC.V2Tok.normalize_lines_all
 #print axioms LC.V2Tok.render_small
 #print axioms LC.V2Tok.notice_line
 #print axioms LC.V2Tok.marker_dropped
